@@ -2044,6 +2044,11 @@ C17_THEOREMS = [
     T("Rl4co.Ops.all_classes_agree", "proved", "FastTdDataset.__getitems__, FastGeneration.__getitems__ and TensorDictDataset deliver the same td[idxs] (gaps, repetitions, any order)"),
     T("Rl4co.Ops.loader_roundtrip_perm", "proved", "any index sequence (any sampler): returned instances = the sequence mapped through the data set; a permutation returns each exactly once"),
     T("Rl4co.Ops.loader_batches", "proved", "the j-th batch is the j-th chunk of the index sequence mapped through the data set"),
+    T("Rl4co.Ops.chunks_getElem?", "proved", "positional form: slot j of batch k is element k*bs+j of the sampler order, for every bs >= 1, every length; empty exactly beyond the end (final partial batch)"),
+    T("Rl4co.Ops.chunks_length", "proved", "the loader yields ceil(len / bs) batches: no empty trailing batch, none dropped"),
+    T("Rl4co.Ops.loader_getElem?", "proved", "slot j of batch k of the data loader holds item order[k*bs+j], any sampler order"),
+    T("Rl4co.Ops.loader_sequential_slot", "proved", "sequential sampler: slot j of batch k is instance k*bs+j itself"),
+    T("Rl4co.Ops.extra_slot", "proved", "ExtraKeyDataset: the slot holding instance order[p] holds that instance's own extra value, any order, any bs"),
     T("Rl4co.Spec.Ops.fetchOk_iff", "proved", "Spec sanity: fetchOk ⇔ delivered = requested ∧ extras aligned"),
     T("Rl4co.Spec.Ops.loaderOk_seq", "proved", "Spec sanity: without shuffling loaderOk pins ids to 0..n-1, sizes full except the last"),
     T("Rl4co.Spec.Ops.loaderOk_shuffle", "proved", "Spec sanity: with shuffling every instance exactly once, extras aligned"),
@@ -2072,5 +2077,5 @@ register(Unit("C12", "ops", run_c12, drivers=["drv_ops"],
               lean_modules=["Rl4co.Props.C12.Batchify", "Rl4co.Props.C12.Select", "Rl4co.Props.C12.OpsSpec", "Rl4co.Spec.Ops"],
               theorems=C12_THEOREMS, assumptions=[NOTE_T, NOTE_S, NOTE_P], replay=replay_c12, search=run_c12))
 register(Unit("C17", "ops", run_c17, drivers=["drv_ops"],
-              lean_modules=["Rl4co.Props.C17.Dataset", "Rl4co.Props.C12.OpsSpec", "Rl4co.Spec.Ops"],
+              lean_modules=["Rl4co.Props.C17.Dataset", "Rl4co.Props.C17.DatasetPos", "Rl4co.Props.C12.OpsSpec", "Rl4co.Spec.Ops"],
               theorems=C17_THEOREMS, assumptions=[NOTE_D, NOTE_PD], replay=replay_c17, search=run_c17))
